@@ -386,6 +386,7 @@ func init() {
 		if !c.Preload(c.Configs()...) {
 			return
 		}
+		expFoundations(c) // the final U/W division: Invert raises to p-2 (E-EXP)
 		// the ladder's field primitives do not wrap a machine word (engine E-RANGE, stage A, portable back ends)
 		var rangeCfgs []string
 		for _, id := range c.Configs() {
